@@ -27,6 +27,7 @@ COMPONENTS_STUB = [
     'wall clock (simulated, discrete), file mtimes (stamped from simulated clock)',
     'directory enumeration order (keyed permutation at the scandir seam)',
     'I/O error and short-read behaviour (fault plan at the seam)',
+    "completion order of the loader's worker pool (MultiprocessingPoolWrapper replaced by a one-process pool that permutes imap_unordered results by the run's key; one third of the keys keep the shipped serial wrapper)",
 ]
 
 
